@@ -241,7 +241,8 @@ def fits_float32(V):
 
 # ----------------------------------------------------------------------------- attribute specifications
 ATTR_TYPES = ["bool", "int", "float", "complex", "str"]
-WORDS = ["a", "b7", "edge", "Wing", "x_1", "ZZ", "mouette", "0", "k9k", "left.right"]
+# (bracketed words are ordinary values: only the format's own chunk tags [HEAD] [ATTS] [ATTR] mean something to a reader)
+WORDS = ["a", "b7", "edge", "Wing", "x_1", "ZZ", "mouette", "0", "k9k", "left.right", "[SEAM]", "[hard]", "[X1]"]
 
 
 # text a line-oriented ASCII file can hold as one value: printable ASCII with interior blanks, no leading / trailing blank,
